@@ -27,6 +27,7 @@ def handle (op : String) (args : Json) : Except String Json :=
   | "c12.batch" => LK.Driver.C12.run args
   | "c18.train_all" => LK.Driver.C18.run args
   | "c18.guard" => LK.Driver.C18.guard args
+  | "c18.pipe" => LK.Driver.C18.pipe args
   | "c14.run" => LK.Driver.C14.run args
   | "c13.canon_json" => LK.Driver.C13.canon args
   | "c15.crash" => LK.Driver.Misc.c15Crash args
